@@ -427,17 +427,24 @@ def worklist(ta, tb):
         c = est_call('ucomplex')
         a = c.args
         if len(a) != 6 or [U(x) for x in a[:3] + a[4:]] != ['mu', 'u[0]', 'u[1]', 'df', 'label']: raise Untranslatable('ucomplex arguments')
-        return EC({'r': ('T', 'r')}).test(kw(c, 'independent'))
+        k = kw(c, 'independent')
+        if isinstance(k, ast.Constant) and isinstance(k.value, bool): return bool_const(k)
+        return EC({'r': ('T', 'r')}).test(k)
     add('g_est_cplx_indep', '(r : T N)', 'bool', th)
     def th():
         # the correlation handed to UncertainComplex._elementary: `<x> if <test> else None`  (None: no register is written)
+        # shapes: `<x> if <test> else None`, `None`, or a plain expression (always written)
         a = est_call('ucomplex').args[3]
-        if not (isinstance(a, ast.IfExp) and isinstance(a.orelse, ast.Constant) and a.orelse.value is None):
-            raise Untranslatable('correlation argument of ucomplex is not `... if ... else None`: %s' % U(a))
         c = EC({'r': ('T', 'r')})
-        p, k, t = c.expr(a.body)
+        if isinstance(a, ast.Constant) and a.value is None:
+            return 'None'
+        if isinstance(a, ast.IfExp) and isinstance(a.orelse, ast.Constant) and a.orelse.value is None:
+            p, k, t = c.expr(a.body)
+            if p: raise Untranslatable('effectful correlation argument')
+            return '(if %s then Some %s else None)' % (c.test(a.test), c.asT(k, t))
+        p, k, t = c.expr(a)
         if p: raise Untranslatable('effectful correlation argument')
-        return '(if %s then Some %s else None)' % (c.test(a.test), c.asT(k, t))
+        return '(Some %s)' % c.asT(k, t)
     add('g_est_cplx_rarg', '(r : T N)', 'option (T N)', th)
     def th():
         c = est_call('ureal')
